@@ -133,7 +133,7 @@ PROPS = {
                    'by the unions performed, with the minimum id as representative, and path compression never changes it; (merge) an FD conflict on a constructor '
                    '(UnionId merge, container merge) stages exactly the union of the two ids and keeps the id the union-find will choose - lemma '
                    'lemma_unionid_matches_union_find ties the two contracts; (disp) a staged union row reaches the union-find unchanged, DisplacedTable reports the canonical '
-                   'id of every id (get_row_column col 1 = root) and records exactly the displaced id; (driver) rebuild runs to the fixpoint signalled by container rebuild, '
+                   'id of every id (get_row_column col 1 = root) and records exactly the displaced id; Canonicalizer::rebuild_val maps every id to its root and Canonicalizer::rebuild_subset (the incremental table rebuild) returns every scanned row with the rebuilt columns canonical, marking exactly the already-canonical rows as untouched; (driver) get_canon_in_uf/get_canon_repr return the representative; rebuild runs to the fixpoint signalled by container rebuild, '
                    'table rebuild and row refresh whenever the union-find grew, on every exit path. "No equality is invented" is proved at the union-find level; '
                    '"none that follows is missed" is proved modulo the per-pass rebuild contract (Canonicalizer / SortedWritesTable::do_rebuild), which is assumed.',
         level_note='Trusted: the per-pass rebuild contract of core-relations (apply_rebuild rewrites every row to canonical ids and merges congruent rows), '
